@@ -292,17 +292,41 @@ def run_stream(args, asl, canon_p, bdir, wd, drv_ok, dist, spec_fail, corr_fail,
     answers = common.driver("c11lab", reqs, timeout=1800)
     d = dict(programs=0, undefined_expected=0, model_eq_real=0, spec_eq_real=0, hand_assembled=0, statements=0, by_maxdepth={},
              refs=dict(own=0, out1=0, out2=0, out3=0, out4plus=0, glob=0, global_namesake_of_enclosing=0, shadowed=0, forward=0),
-             labels=0, globalsymbols=0, macro_called_twice=0, kinds={})
+             labels=0, globalsymbols=0, macro_called_twice=0, kinds={}, hyp_nodoubledef=0, hyp_noearlybind=0, hyp_both=0, hyp_second_pass=0, hyp_none_applies=0,
+             early_bind_programs_model_ne_spec=0)
     for k, ((top, macros, st), req, ans) in enumerate(zip(progs, reqs, answers)):
         if not ans.startswith("ok "):
             proof_problems.append("driver c11lab: %s on program %d" % (ans[:60], k))
             continue
         kv = dict(x.split("=", 1) for x in ans.split()[1:])
+        # the hypotheses of C11_labels_refines / C11_labels_refines_extra_pass evaluated on this program: what the theorems say must be what
+        # the compiled model and the compiled SPEC give - a contradiction is a broken proof chain (or a driver that is not the proved model)
+        ndd, neb = kv.get("ndd"), kv.get("neb")
+        d["hyp_nodoubledef"] += ndd == "1"
+        d["hyp_noearlybind"] += neb == "1"
+        d["hyp_both"] += ndd == "1" and neb == "1"
+        if ndd not in ("0", "1") or neb not in ("0", "1"):
+            proof_problems.append("driver c11lab: hypotheses of C11_labels_refines not evaluated on program %d" % k)
+        if ndd == "1" and neb == "1" and kv["model"] != kv["spec"]:
+            proof_problems.append("c11lab: NoDoubleDef and NoEarlyBind hold for program %d, C11_labels_refines says model = spec, evaluation gives "
+                                  "model=%s spec=%s (request %s)" % (k, kv["model"], kv["spec"], req[:200]))
+        d["hyp_second_pass"] += kv.get("p2") == "1"
+        d["hyp_none_applies"] += not (ndd == "1" and (neb == "1" or kv.get("p2") == "1"))
+        if ndd == "1" and kv.get("p2") == "1" and kv["model"] != kv["spec"]:
+            proof_problems.append("c11lab: NoDoubleDef holds for program %d and pass 1 leaves a reference undefined, C11_labels_refines_second_pass "
+                                  "says model = spec, evaluation gives model=%s spec=%s (request %s)" % (k, kv["model"], kv["spec"], req[:200]))
+        if ndd == "1" and neb == "0" and kv.get("p2") == "0" and kv["model"] == kv["spec"]:
+            proof_problems.append("c11lab: NoDoubleDef holds for program %d, a reference is bound early and pass 1 asks for no second pass: "
+                                  "C11_labels_refines_iff says model /= spec, evaluation gives model=spec=%s (request %s)" % (k, kv["spec"], req[:200]))
+        if ndd == "1" and kv["model2"] != kv["spec"]:
+            proof_problems.append("c11lab: NoDoubleDef holds for program %d, C11_labels_refines_extra_pass says model2 = spec, evaluation gives "
+                                  "model2=%s spec=%s (request %s)" % (k, kv["model2"], kv["spec"], req[:200]))
         src = source(top, macros)
         hand = hand_source(kv["hand"])
         real, rc, msg = real_bytes(asl, canon_p, bdir, wd, "lc%d" % k, src)
         evaluations += 1
         distinct.add(req)
+        d["early_bind_programs_model_ne_spec"] += neb == "0" and kv["model"] != kv["spec"]
         d["programs"] += 1
         d["statements"] += 0 if kv["hand"] == "-" else kv["hand"].count(",") + 1
         d["by_maxdepth"][str(st["maxdepth"])] = d["by_maxdepth"].get(str(st["maxdepth"]), 0) + 1
@@ -341,7 +365,8 @@ def run_stream(args, asl, canon_p, bdir, wd, drv_ok, dist, spec_fail, corr_fail,
                     # class of the known finding: a reference in front of the body's own label of that name found a label of an enclosing
                     # body / a global symbol in pass 1 and nothing asked for a second pass - with one more pass the code is the hand expansion's
                     x, _, _ = real_bytes(lambda b, w, n, s_: asl_extra_pass(b, w, n, s_), canon_p, bdir, wd, "lx%d" % k, src)
-                    if x == kv["spec"]:
+                    if x == kv["spec"] and neb == "0":
+                        # (neb = 1 here would contradict the theorem; that case is reported above as a proof problem)
                         info["sig"] = SIG_FWD
                         info["with_one_more_pass"] = x
                         d["finding_forward_ref_programs"] = d.get("finding_forward_ref_programs", 0) + 1
